@@ -20,8 +20,10 @@ import (
 	"golang.org/x/tools/go/ssa/ssautil"
 )
 
-const repoRoot = "/repo"
-const verifRoot = "/verif"
+// VERIF_ROOT / VERIF_REPO let development copies (scratch worktrees) run the same
+// engine; the registered checks always use /verif and /repo.
+var repoRoot = envDef("VERIF_REPO", "/repo")
+var verifRoot = envDef("VERIF_ROOT", "/verif")
 
 type HarnessFile struct {
 	Path     string // /verif/harness/<rel>
